@@ -64,7 +64,7 @@ def avl_history(rng, cid, bits=None, lay=None, cap=None, length=None, grow=False
                 ops.append(rng.choice(['capq', 'len', 'openro', 'openmut']))
             continue
         if queries and x < 0.22:
-            q = rng.choice(['get', 'has', 'low', 'len', 'empty', 'full', 'capq', 'gmut', 'gmut0', 'openmut', 'openro'])
+            q = rng.choice(['get', 'has', 'low', 'len', 'empty', 'full', 'capq', 'gmut', 'gmut0', 'openmut', 'openro', 'dbg'])
             if q in ('get', 'has', 'gmut0'):
                 ops.append('%s %d' % (q, rng.choice(uni)))
             elif q == 'gmut':
@@ -149,14 +149,14 @@ def avl_encode(bits, lay, root, size, cap, flh, seq, nodes):
     koff = round_up(4 * w, ksz)
     voff = round_up(koff + ksz, vsz)
     rlen = round_up(voff + vsz, max(w, ksz, vsz))
-    body = b''
+    body = []
     for (l, r, h, k, v) in nodes:
         rec = le(l, w) + le(r, w) + le(h, w) + le(0, w)
         rec += bytes(koff - len(rec)) + le(k, ksz)
         rec += bytes(voff - len(rec)) + le(v, vsz)
         rec += bytes(rlen - len(rec))
-        body += rec
-    return hdr + body
+        body.append(rec)
+    return hdr + b''.join(body)
 
 def avl_state_bytes(rng, bits, lay, shape, extra_free, extra_never, keys=None):
     """Build the bytes of a state satisfying the representation invariant:
@@ -320,6 +320,75 @@ def avl_large_case(rng, cid, cap=65534, lay='u32u32'):
     ops = ['capq', 'ins 10 1', 'ins 5 2', 'ins 20 3', 'ext 3', 'openro', 'capq', 'openmut', 'capq', 'len', 'full',
            'ins 7 4', 'ins 8 5', 'get 7', 'low', 'ext 1', 'ins 9 6', 'capq', 'rem 5', 'ins 6 7', 'len']
     return Case(cid, 'avl', {'bits': 32, 'lay': lay, 'cap': cap, 'nrec': cap, 'mode': 'persistent'}, ops, {'stream': 'L'})
+
+def bal_shape(n):
+    if n == 0:
+        return None
+    nl = (n - 1) // 2
+    return (bal_shape(nl), bal_shape(n - 1 - nl))
+
+def avl_huge_state_case(rng, cid, n=66000, lay='u32u32'):
+    """a 32-bit tree holding more than 2^16 entries (slot numbers, size and links wider than 16 bits),
+    built as bytes; a few operations of every kind at the bottom, middle and top of the key range"""
+    raw, nn, cap = avl_state_bytes(rng, 32, lay, bal_shape(n), 3, 4)
+    top = 2 * n
+    mid = 2 * (n // 2)
+    ops = ['len', 'full', 'capq', 'low', 'get %d' % top, 'get %d' % mid, 'get 2', 'has %d' % (top + 1), 'has 1',
+           'ins %d 5' % (top + 1), 'ins %d 6' % (mid + 1), 'ins 1 7', 'ins %d 8' % mid, 'len',
+           'rem %d' % mid, 'rem 2', 'rem %d' % top, 'rem %d' % (top + 3), 'gmut %d 9' % (mid + 2), 'get %d' % (mid + 2),
+           'low', 'len', 'openro', 'len', 'get %d' % (mid + 1), 'ins %d 1' % (top + 5), 'ins %d 1' % (top + 7),
+           'ins %d 1' % (top + 9), 'ins %d 1' % (top + 11), 'ins %d 1' % (top + 13), 'ins %d 1' % (top + 15), 'full', 'len']
+    uni = sorted({1, 2, 3, 4, mid - 2, mid, mid + 1, mid + 2, top - 2, top, top + 1, top + 3, top + 5, top + 7, top + 9, top + 11, top + 13, top + 15})
+    return Case(cid, 'avl', {'bits': 32, 'lay': lay, 'raw': raw.hex(), 'mode': 'persistent'}, ops, {'stream': 'L', 'uni': uni})
+
+def hash_huge_state_case(rng, cid, n=66000, vty='u32'):
+    """a hash set holding more than 2^16 members, built as bytes"""
+    cap = n + 6
+    values = list(range(100, 100 + n))
+    raw = hash_state_bytes(rng, vty, cap, values, 2)
+    ops = ['size', 'full', 'capq', 'has 100', 'has %d' % (99 + n), 'has %d' % (100 + n), 'has 5', 'ins 5', 'ins 100', 'ins %d' % (100 + n),
+           'size', 'rem 100', 'rem %d' % (100 + n // 2), 'rem 6', 'has 100', 'size', 'ins 7', 'ins 8', 'ins 9', 'ins 10', 'ins 11',
+           'ins 12', 'ins 13', 'full', 'size', 'rem %d' % (99 + n), 'ins 14', 'has 14', 'size']
+    return Case(cid, 'hash', {'vty': vty, 'raw': raw.hex(), 'mode': 'persistent'}, ops, {'stream': 'L'})
+
+def avl_session_case(rng, cid, bits=None, lay=None):
+    """a tree initialised with a capacity smaller than the record count of its buffer and used through
+    the handle that initialised it: the capacity stays what initialize said until a view is opened anew"""
+    bits = bits or rng.choice([32, 8])
+    lay = lay or rng.choice(['u64u64', 'u32u32', 'u16u32', 'u8u64'])
+    cap = rng.choice([0, 1, 2, 2, 3, 4, 6])
+    extra = rng.choice([1, 1, 2, 3, 5])
+    uni = pick_universe(rng, lay, cap + extra + 3, False)
+    vm = val_max(lay)
+    ops = ['capq', 'full']
+    present = []
+    def ins_new():
+        ks = [k for k in uni if k not in present]
+        if ks:
+            k = rng.choice(ks); ops.append('ins %d %d' % (k, rng.randint(0, min(vm, 99)))); present.append(k)
+            return k
+    # fill to the initialised capacity through the same handle, then refused operations of every kind
+    for _ in range(cap):
+        ins_new()
+    refused = ['ins %d 1' % rng.choice(uni), 'full', 'capq', 'len', 'rem %d' % ([k for k in uni if k not in present] or [uni[0]])[-1],
+               'gmut0 %d' % rng.choice(uni), 'get %d' % rng.choice(uni), 'low', 'dbg']
+    if present:
+        refused += ['ins %d 3' % rng.choice(present), 'ins %d 4' % rng.choice(present)]
+    rng.shuffle(refused)
+    ops += refused[:rng.randint(3, len(refused))]
+    # one more new key: refused, the tree is full by its own capacity word
+    k_over = [k for k in uni if k not in present][0]
+    ops += ['ins %d 5' % k_over, 'len', 'capq']
+    if rng.random() < 0.5 and present:
+        k = present.pop(rng.randrange(len(present))); ops += ['rem %d' % k, 'ins %d 6' % k]; present.append(k)
+    # a view opened anew adopts the spare records
+    ops += [rng.choice(['openmut', 'openro', 'ext 1', 'openmut']), 'capq', 'full']
+    for _ in range(rng.randint(1, extra + 2)):
+        ins_new()
+        if rng.random() < 0.3:
+            ops.append('ins %d 7' % rng.choice(uni))
+    ops += ['len', 'capq', 'full', 'fill %d' % fresh_key(lay, uni)]
+    return Case(cid, 'avl', {'bits': bits, 'lay': lay, 'cap': cap, 'nrec': cap + extra, 'keep': 1, 'mode': 'persistent'}, ops, {'stream': 'I'})
 
 def avl_growth_cycles(rng, cid, bits=None, lay=None, mode='persistent'):
     """repeated growth in every combination of 'full / not full / emptied' and 'free list empty / not
@@ -520,13 +589,13 @@ def hash_state_bytes(rng, vty, cap, values, extra_free):
     for f in reversed(free):
         hn[f - 1] = flh; flh = f
     voff = round_up(8, vsz); rlen = round_up(voff + vsz, max(4, vsz))
-    body = b''
+    body = []
     for i in range(cap):
         rec = le(hb[i], 4) + le(hn[i], 4)
         rec += bytes(voff - len(rec)) + le(hv[i], vsz)
         rec += bytes(rlen - len(rec))
-        body += rec
-    return le(n, 4) + le(cap, 4) + le(flh, 4) + le(seq, 4) + body
+        body.append(rec)
+    return le(n, 4) + le(cap, 4) + le(flh, 4) + le(seq, 4) + b''.join(body)
 
 def hash_single_steps(rng, prefix_id, thorough=False):
     """every single operation from hand-built invariant states: all subsets (up to a size bound) of a
@@ -840,7 +909,11 @@ def pstr_history(rng, cid, p=None, size=None):
             ops += ['copy %s' % hx(s.encode()), 'asstr']
         elif x < 0.7:
             ops += ['upper', 'asstr']
-        elif x < 0.85:
+        elif x < 0.78:
+            # the unsafe byte-level copy, called directly with (valid, ASCII) text of any length
+            n = rng.choice([0, 1, 2, max(0, size - p - 1), max(0, size - p), size - p + 1, size - p + 5, 40])
+            ops += ['copysl %s' % hx(bytes(rng.choice(b'abcxyz019') for _ in range(n))), 'asstr']
+        elif x < 0.88:
             ops += ['ro']
         else:
             ops += ['size', 'new', 'asstr']
